@@ -178,8 +178,10 @@ def explore(run, tier):
         if me:
             cases.append(mk('pkg', codec, rng.randrange(2), me[0], me[1]))
     # generated configurations
-    for _ in range(12 if tier == 'quick' else 60):
-        cfg = iu.gen_config(rng)
+    for gi in range(12 if tier == 'quick' else 60):
+        # every third generated configuration has `decimal` typed elements, some wider than the 28 significant digits of
+        # the default decimal context
+        cfg = iu.gen_config(rng, with_decimal=(gi % 3 == 0), decimal_widths=(3, 8, 15, 30, 40))
         for _ in range(60 if tier == 'quick' else 300):
             codec = rng.choice(iu.CODECS)
             m, e = iu.gen_message(rng, cfg, codec)
